@@ -104,7 +104,14 @@ func runC17(c *core.Ctx) {
 		"log.yaml":  "2021/01/24:\n  " + long(5000, "u") + ": 1\n  aa: 2\n  " + long(8200, "v") + ": 3\n  a/b: 1\n  " + long(4096, "r") + ": 2\n",
 		"bad.yaml":  "2021/01/24:\n  " + long(6000, "m") + "\n  ok: 1\n  " + long(9000, "n") + ": x\n",
 	})
-	longIdx := len(worlds) - 1
+	// the same with the long names sorting first (the first line of a sorted report bypasses the buffer)
+	worlds = append(worlds, map[string]string{
+		"food.yaml": long(4200, "0") + ":\n  x: 3\n  " + long(4300, "1") + ": 2\n\nzz/b:\n  x: 1\n",
+		"log.yaml":  "2021/01/24:\n  " + long(4200, "0") + ": 2\n  00" + long(5000, "u") + ": 1\n  zz/b: 2\n  x: 1\n",
+		"bad.yaml":  "2021/01/24:\n  " + long(6000, "m") + "\n",
+	})
+	long2Idx := len(worlds) - 1
+	longIdx := len(worlds) - 2
 	worlds = append(worlds, c17Files(c, 1000, true))
 	bigIdx := len(worlds) - 1
 	pre := []string{"--no-color", "-d", "food.yaml", "-l", "log.yaml", "--today", "2021/02/01"}
@@ -122,7 +129,7 @@ func runC17(c *core.Ctx) {
 			}
 			L := len(res.Out)
 			fullOut[[2]int{wi, ci}] = res.Out
-			if wi != bigIdx && wi != longIdx {
+			if wi != bigIdx && wi != longIdx && wi != long2Idx {
 				if L <= 3000 {
 					exhaustiveCmds++
 					for k := 0; k <= L; k++ {
@@ -168,7 +175,7 @@ func runC17(c *core.Ctx) {
 		if j.world == bigIdx {
 			files = map[string]string{"note": "large generated files (500 days, 600 recipes), see c17Files"}
 		}
-		if j.world == longIdx {
+		if j.world == longIdx || j.world == long2Idx {
 			files = map[string]string{"note": "names of 4096, 5000, 6000, 8200 and 9000 bytes (longer than one output buffer), see runC17"}
 		}
 		doc := caseDoc{Files: files, Args: args, Note: fmt.Sprintf("sink fails from byte %d of %d", j.k, j.full),
